@@ -163,6 +163,10 @@ def run(prog: Program, col: Collector, tier: str, refs: Optional[Refs] = None, c
     col.rule("R04.21", "a term is declared affine in an input only after its op has been tested (affine substitution into Gaussians relies on it)", floor=4)
     _affine_rules_test_op(prog, col, refs, cat)
 
+    # ---------------------------------------------------------------- R04.27
+    col.rule("R04.27", "an eager_subs that renames inputs counts duplicate target names over every class of value it renames", floor=1)
+    _renaming_duplicates_counted(prog, col, refs, cat)
+
     # ---------------------------------------------------------------- R04.26
     col.rule("R04.26", "whether an input of the term is substituted is decided on the keys of the substitution, never on a collection that holds names of the values", floor=4)
     _substituted_decided_on_keys(prog, col, refs, cat)
@@ -1647,3 +1651,64 @@ def _substituted_decided_on_keys(prog: Program, col: Collector, refs: Refs, cat:
             else:
                 col.ok(construct, f"`{C}` holds keys of the substitution / the term's own names only", f.loc(c), nontrivial=C in keys_coll)
     col.cur.analysed["membership_tests_of_own_inputs"] = n
+
+
+# ---------------------------------------------------------------------- R04.27 duplicates among the values that are applied by renaming
+
+
+def _renaming_duplicates_counted(prog: Program, col: Collector, refs: Refs, cat: Catalogue):
+    """An eager_subs that applies some values by RENAMING an input (`k = v.name` for a Variable or a Slice) may rename two inputs onto
+    the same name; that is a diagonal and cannot be done by renaming.  The function therefore counts how often each target NAME
+    occurs among the renaming values - over all the classes it renames, and by name (two Slices over one name with different
+    ranges are different objects)."""
+    n = 0
+    for f in prog.funcs.values():
+        if isinstance(f.node, ast.Lambda) or f.name != "eager_subs" or f.cls is None:
+            continue
+        # classes renamed: isinstance tests guarding `k = v.name`
+        renamed_classes = set()
+        for node in walk_no_nested(f.node):
+            if not isinstance(node, ast.If):
+                continue
+            t = node.test
+            if not (isinstance(t, ast.Call) and isinstance(t.func, ast.Name) and t.func.id == "isinstance" and len(t.args) == 2 and isinstance(t.args[0], ast.Name)):
+                continue
+            v = t.args[0].id
+            # only where several inputs are renamed in one go: the test sits in a loop over the term's inputs
+            in_loop = any(isinstance(a, ast.For) and any(isinstance(y, ast.Attribute) and y.attr == "inputs" for y in ast.walk(a.iter)) for a in f.module.ancestors(node))
+            if in_loop and any(isinstance(st, ast.Assign) and isinstance(st.value, ast.Attribute) and st.value.attr == "name" and isinstance(st.value.value, ast.Name) and st.value.value.id == v
+                               for st in node.body):
+                cl = t.args[1].elts if isinstance(t.args[1], ast.Tuple) else [t.args[1]]
+                renamed_classes |= {refs.resolve(x) or norm(x) for x in cl}
+        if not renamed_classes:
+            continue
+        n += 1
+        counters = [c for c in walk_no_nested(f.node) if isinstance(c, ast.Call) and (refs.resolve(c.func) or norm(c.func)).rsplit(".", 1)[-1] == "Counter"
+                    and c.args and isinstance(c.args[0], (ast.GeneratorExp, ast.ListComp))]
+        construct = f"{f.fq}::duplicates among renaming values"
+        if not counters:
+            col.violation(construct, f"values of classes {sorted(x.rsplit('.', 1)[-1] for x in renamed_classes)} are applied by renaming inputs, but nothing counts how often a target name "
+                          "occurs: two inputs renamed onto one name need a diagonal, renaming the second overwrites the first", f.loc())
+            continue
+        ok_any = False
+        why = ""
+        for c in counters:
+            g = c.args[0]
+            counted = set()
+            for cnd in g.generators[0].ifs:
+                for x in ast.walk(cnd):
+                    if isinstance(x, ast.Call) and isinstance(x.func, ast.Name) and x.func.id == "isinstance" and len(x.args) == 2:
+                        cl = x.args[1].elts if isinstance(x.args[1], ast.Tuple) else [x.args[1]]
+                        counted |= {refs.resolve(y) or norm(y) for y in cl}
+            by_name = isinstance(g.elt, ast.Attribute) and g.elt.attr == "name"
+            missing = renamed_classes - counted
+            if not missing and (by_name or len(renamed_classes) == 1):
+                ok_any = True
+            else:
+                why = (f"the duplicate count `{norm(c)[:60]}` covers {sorted(x.rsplit('.', 1)[-1] for x in counted)}"
+                       + (f" but not {sorted(x.rsplit('.', 1)[-1] for x in missing)}" if missing else "")
+                       + ("" if by_name else " and counts the value objects, not their names")
+                       + f", while values of classes {sorted(x.rsplit('.', 1)[-1] for x in renamed_classes)} are applied by renaming: t(a=Slice('k', ...), b=Slice('k', ...)) renames both "
+                       "inputs to k, the second overwrites the first and a batch dim ends up in the output shape")
+        col.check(ok_any, construct, "target names are counted over every class of value that is applied by renaming", why, f.loc(counters[0]))
+    col.cur.analysed["renaming_eager_subs"] = n
